@@ -118,17 +118,45 @@ def empty_guard(chk, fx):
     flow.assert_structured(f)
     bad = None
     n = 0
+
+    def size_rel(cond, outcome):
+        """True/False when (cond, outcome) says the cursor stack is non-empty / empty, else None."""
+        a = AI.atom_with_outcome(cond, outcome)
+        if a[0] == "cmp" and a[2][0] == "call" and (a[2][1] or "").endswith("::size") and a[3] == ("const", 0) and \
+                "cursor_stack" in AI.tstr(a[2]):
+            if a[1] in ("!=", ">"):
+                return True
+            if a[1] in ("==", "<="):
+                return False
+        if a[0] in ("truth", "false") and a[1][0] == "un" and a[1][1] == "!":
+            return None
+        if a[0] in ("truth", "false") and a[1][0] == "call" and (a[1][1] or "").endswith("::empty") and "cursor_stack" in AI.tstr(a[1]):
+            return a[0] == "false"
+        return None
+
     for ev, term_ in flow.paths(f.body):
         nonempty = False
         popped = False
+        flags = {}          # bool local -> (init node, evaluated after the pop?)
         for e in ev:
             if e[0] == "cond":
-                a = AI.atom_with_outcome(e[1], e[2])
-                if a[0] == "cmp" and a[2][0] == "call" and (a[2][1] or "").endswith("::size") and a[3] == ("const", 0) and \
-                        "cursor_stack" in AI.tstr(a[2]):
-                    nonempty = a[1] in ("!=", ">")
+                r = size_rel(e[1], e[2])
+                if r is not None:
+                    nonempty = r
+                else:
+                    vid = A.declref_id(e[1])
+                    if vid in flags and flags[vid][1]:
+                        for alt in flow.cond_atoms(flags[vid][0], e[2]):
+                            for _, c2, o2 in alt:
+                                r2 = size_rel(c2, o2)
+                                if r2 is not None:
+                                    nonempty = r2
             nodes = [e[1]] if e[0] in ("stmt", "cond", "return") else []
             for nd in nodes:
+                if e[0] == "stmt" and nd.get("k") == "DeclStmt":
+                    for d in nd.get("decls", ()):
+                        if d.get("k") == "Var" and d.get("init") is not None and f.facts.T(d["t"]) in ("bool", "const bool"):
+                            flags[d["id"]] = (d["init"], popped)
                 for m in walk(nd):
                     if m.get("k") == "CXXMemberCallExpr" and (m.get("callee") or {}).get("n") in ("back", "front") and \
                             "cursor_stack" in A.field_names(A.access_path(A.call_object(m))):
